@@ -34,29 +34,19 @@ var c11Backends = []BackendSpec{
 	{Tag: "b3", Services: allProbeServices},
 }
 
-// What a backend advertises by default. larking registers a connection at the
-// granularity of the proto files that contain the advertised services, so the
-// model does too (fileMates): TestService lives in grpc/testing/test.proto,
-// Files and Messaging share api/test.proto.
+// What a backend advertises by default. A connection is registered for the
+// services its backend lists, and for no other service that happens to be
+// declared in a file it sent (Files and Messaging share api/test.proto;
+// sim/orders.proto imports sim/users.proto, which declares a service too).
+// Until session 3 the model followed larking in registering whole files
+// (DESIGN sections 9 and 15: defect, repaired).
 var defaultAdv = map[string][]string{
 	"b1": {tsvc, svcFiles},
 	"b2": {tsvc},
 	"b3": {svcMessaging},
 }
 
-func fileMates(service string) []string {
-	switch service {
-	case tsvc:
-		return []string{tsvc}
-	case svcSimUsers:
-		return []string{svcSimUsers}
-	case svcSimOrders:
-		// sim/orders.proto imports sim/users.proto: the reflection answer
-		// carries both files, and every file received is registered
-		return []string{svcSimOrders, svcSimUsers}
-	}
-	return []string{svcFiles, svcMessaging}
-}
+func fileMates(service string) []string { return []string{service} }
 
 var c11Alphabet = []RegOp{
 	{Kind: "regsvc", Target: "local", Service: tsvc},
